@@ -25,7 +25,9 @@ import (
 // key: {closed, present, value}. Histories are recorded with call/return numbers from one atomic counter and checked
 // per key with porcupine (vendored copy of v1.3.0, see porcupine/README.txt). Traverse and Map are decomposed into one
 // read per key spanning the whole call (shards are locked one after the other, no atomic snapshot is claimed); Close
-// is put into every key's history.
+// is put into every key's history. Close is ONE operation of the whole map, so histories with a Close are checked a
+// second time as a whole: directly (once any operation has observed the closed map, no operation that starts after that
+// one returned may still find the map open, on whatever key) and exactly (one moment within Close must suit every key).
 
 const (
 	c32Exists = iota
@@ -336,6 +338,23 @@ var c32Model = (&porcupine.NondeterministicModel{
 	},
 }).ToModel()
 
+// c32SawOpen: the answer is one a closed map can not give (derived from the closed clause of the sequential model).
+func c32SawOpen(op c32Op, out c32Out) bool {
+	switch op.Kind {
+	case c32Close:
+		return false
+	case c32Traverse, c32Map:
+		return len(out.Reads) > 0
+	default:
+		return out.Err != c32ErrOther && len(c32Step(c32State{Closed: true}, op, out)) < 1
+	}
+}
+
+// c32SawClosed: the answer is one only a closed map can give.
+func c32SawClosed(op c32Op, out c32Out) bool {
+	return op.Kind == c32Close || out.Err == c32ErrClosed
+}
+
 // ---- schedule hooks of the harness-supplied shards
 
 type c32Hooks struct {
@@ -344,6 +363,7 @@ type c32Hooks struct {
 	closeDone  chan struct{}
 	waitClose  bool
 	createSpin int
+	closeSpin  int
 }
 
 func (h *c32Hooks) bit() bool {
@@ -390,10 +410,32 @@ func (h *c32Hooks) after() {
 	runtime.Gosched()
 }
 
+// closing runs around the Close of one shard (closing a caller-supplied shard may take any time; a goroutine may be
+// descheduled between the Close of one shard and of the next one).
+func (h *c32Hooks) closing() {
+	if h.closeSpin < 1 {
+		return
+	}
+
+	n := 1
+	if h.bit() {
+		n = h.closeSpin
+	}
+
+	c32Spin(n)
+}
+
 // c32Shard is a LockedMap a caller may hand to NewShardedMap: the stock single map plus scheduling points.
 type c32Shard[K cmp.Ordered] struct {
 	*util.SingleLockedMap[K, int]
 	h *c32Hooks
+}
+
+func (s *c32Shard[K]) Close() {
+	s.h.closing()
+	defer s.h.closing()
+
+	s.SingleLockedMap.Close()
 }
 
 func (s *c32Shard[K]) Exists(k K) bool {
@@ -687,7 +729,7 @@ func (t *c32LockedTarget) final() (int, int, int) {
 // ---- case generation
 
 type c32Case struct {
-	Shape      string // mixed: long programs on one map | burst: short write-first programs, repeated on fresh maps
+	Shape      string // mixed: long programs on one map | burst: short write-first programs, repeated on fresh maps | closing: a Close in flight while many clients work on many keys
 	Kind       string // single | sharded | sharded-hooked | deep | deep-hooked | locked
 	KeyType    string // string | int
 	Shards     []uint64
@@ -695,8 +737,10 @@ type c32Case struct {
 	Progs      [][]c32Op
 	Bits       []bool
 	HasClose   bool
-	CreateSpin int // yields inside the harness-supplied shard factory
-	Rounds     int // fresh objects the same programs are run on (each round is checked on its own)
+	CreateSpin int  // yields inside the harness-supplied shard factory
+	CloseSpin  int  // yields around the Close of one harness-supplied shard
+	WaitClose  bool // harness-supplied shards: an operation may be held between the shard operation and the bookkeeping until Close returned
+	Rounds     int  // fresh objects the same programs are run on (each round is checked on its own)
 }
 
 const c32NKeys = 4
@@ -704,6 +748,11 @@ const c32NKeys = 4
 var (
 	c32AllKinds   = []int{c32Exists, c32Value, c32Value, c32SetValue, c32SetValue, c32RemoveValue, c32Get, c32GetOrCreate, c32GetOrCreate, c32Set, c32Set, c32Remove, c32SetOrRemove, c32SetOrRemove, c32Traverse, c32Map}
 	c32WriteKinds = []int{c32SetValue, c32SetValue, c32SetValue, c32Set, c32Set, c32GetOrCreate, c32GetOrCreate, c32SetOrRemove}
+	// closing programs: every operation on a key, reads and writes alike; few whole-map reads
+	c32ClosingKinds = []int{
+		c32Exists, c32Value, c32Value, c32Value, c32SetValue, c32SetValue, c32RemoveValue, c32Get, c32Get, c32GetOrCreate, c32GetOrCreate,
+		c32Set, c32Set, c32Set, c32Remove, c32SetOrRemove, c32SetOrRemove, c32Exists, c32Value, c32SetValue, c32GetOrCreate, c32Set, c32Traverse, c32Map,
+	}
 )
 
 func c32IsWrite(kind int) bool {
@@ -738,13 +787,18 @@ func c32GenOp(t *rapid.T, kinds []int, nkeys, val int, locked bool) c32Op {
 
 func c32GenCase(t *rapid.T) c32Case {
 	c := c32Case{Rounds: 1}
-	c.Shape = rapid.SampledFrom([]string{"mixed", "mixed", "burst"}).Draw(t, "shape")
+	c.Shape = rapid.SampledFrom([]string{"mixed", "mixed", "burst", "closing", "closing"}).Draw(t, "shape")
 
 	kinds := []string{"single", "sharded", "sharded", "sharded-hooked", "sharded-hooked", "sharded-hooked", "deep", "deep-hooked", "deep-hooked", "locked"}
 	if c.Shape == "burst" {
 		// the life of a sharded map starts with no shard at all: shards (and the inner maps of a deep map) are made
 		// by the first writers that need them, so concurrent first writers are an arrival order of their own
 		kinds = []string{"sharded", "sharded", "sharded-hooked", "deep", "deep", "deep-hooked"}
+	}
+
+	if c.Shape == "closing" {
+		// Close is one operation of the whole map however many shards (and levels) it has to go through
+		kinds = []string{"sharded", "sharded-hooked", "sharded-hooked", "sharded-hooked", "deep", "deep-hooked", "deep-hooked"}
 	}
 
 	c.Kind = rapid.SampledFrom(kinds).Draw(t, "kind")
@@ -759,7 +813,12 @@ func c32GenCase(t *rapid.T) c32Case {
 
 		c.Shards = []uint64{uint64(rapid.SampledFrom(sizes).Draw(t, "shards"))}
 	case "deep", "deep-hooked":
-		c.Shards = rapid.SampledFrom([][]uint64{{2, 3}, {4, 4, 4}, {2, 2}, {2, 2, 2}}).Draw(t, "deepSizes")
+		sizes := [][]uint64{{2, 3}, {4, 4, 4}, {2, 2}, {2, 2, 2}}
+		if c.Shape == "closing" {
+			sizes = [][]uint64{{2, 3}, {4, 4, 4}, {2, 2}, {2, 2, 2}, {8, 8}, {3, 2, 4}}
+		}
+
+		c.Shards = rapid.SampledFrom(sizes).Draw(t, "deepSizes")
 	}
 
 	nkeys := c32NKeys
@@ -769,6 +828,12 @@ func c32GenCase(t *rapid.T) c32Case {
 		nkeys = rapid.IntRange(4, 12).Draw(t, "nkeys")
 		nclients = rapid.IntRange(3, 8).Draw(t, "burstClients")
 		c.Rounds = rapid.IntRange(8, 24).Draw(t, "rounds")
+	}
+
+	if c.Shape == "closing" {
+		nkeys = rapid.IntRange(8, 16).Draw(t, "nkeys")
+		nclients = rapid.IntRange(3, 8).Draw(t, "closingClients")
+		c.Rounds = rapid.IntRange(3, 8).Draw(t, "rounds")
 	}
 
 	c.IntKeys = rapid.SliceOfNDistinct(rapid.IntRange(0, 40), nkeys, nkeys, rapid.ID[int]).Draw(t, "intKeys")
@@ -784,7 +849,12 @@ func c32GenCase(t *rapid.T) c32Case {
 		closeOdds = 5
 	}
 
-	if c.Kind != "locked" && rapid.IntRange(0, closeOdds).Draw(t, "withClose") == 0 {
+	switch {
+	case c.Shape == "closing":
+		// one more client: it does a few operations, closes the map while the others are at work, and goes on
+		closer = nclients
+		nclients++
+	case c.Kind != "locked" && rapid.IntRange(0, closeOdds).Draw(t, "withClose") == 0:
 		closer = rapid.IntRange(0, nclients-1).Draw(t, "closer")
 	}
 
@@ -805,6 +875,22 @@ func c32GenCase(t *rapid.T) c32Case {
 			for i := 0; i < n; i++ {
 				val++
 				prog = append(prog, c32GenOp(t, c32AllKinds, nkeys, ci*1000+val, false))
+			}
+		case "closing":
+			// the first operation is a write so that keys exist on many shards when Close arrives
+			n := rapid.IntRange(3, 11).Draw(t, "nmore")
+			if ci == closer {
+				n = rapid.IntRange(0, 4).Draw(t, "closerOps")
+			}
+
+			prog = make([]c32Op, 0, n+2)
+
+			val++
+			prog = append(prog, c32GenOp(t, c32WriteKinds, nkeys, ci*1000+val, false))
+
+			for i := 0; i < n; i++ {
+				val++
+				prog = append(prog, c32GenOp(t, c32ClosingKinds, nkeys, ci*1000+val, false))
 			}
 		default:
 			n := rapid.IntRange(5, 20).Draw(t, "nops")
@@ -833,6 +919,12 @@ func c32GenCase(t *rapid.T) c32Case {
 
 	c.Bits = rapid.SliceOfN(rapid.Bool(), 16, 48).Draw(t, "bits")
 	c.CreateSpin = rapid.SampledFrom([]int{0, 1, 2, 4}).Draw(t, "createSpin")
+	c.WaitClose = c.HasClose
+
+	if c.Shape == "closing" {
+		c.CloseSpin = rapid.SampledFrom([]int{0, 1, 2, 4, 8}).Draw(t, "closeSpin")
+		c.WaitClose = rapid.IntRange(0, 2).Draw(t, "waitClose") == 0
+	}
 
 	return c
 }
@@ -859,7 +951,7 @@ func c32Build[K cmp.Ordered](c c32Case, keys []K, round int, rt *rapid.T) (c32Ta
 	var newMap func() util.LockedMap[K, int]
 
 	if strings.HasSuffix(c.Kind, "-hooked") {
-		h = &c32Hooks{bits: c.Bits, closeDone: make(chan struct{}), waitClose: c.HasClose, createSpin: c.CreateSpin}
+		h = &c32Hooks{bits: c.Bits, closeDone: make(chan struct{}), waitClose: c.WaitClose, createSpin: c.CreateSpin, closeSpin: c.CloseSpin}
 		h.i.Store(int64(round))
 		newMap = func() util.LockedMap[K, int] {
 			h.create()
@@ -905,6 +997,12 @@ type c32RoundResult struct {
 	firstWrites bool // the first operations of two clients were both writes and overlapped (both had to find or make a shard on a fresh object)
 	sawGOCErr   bool
 	unknown     int64
+
+	closeInFlight    bool  // operations of other clients overlapped the Close
+	afterClosedSeen  int64 // operations that started after some operation had returned with the closed map observed
+	wholeChecked     bool  // the history was checked against the model of the whole map
+	wholeUnknown     int64 // ... and porcupine ran out of its time budget (inconclusive)
+	closedAnswerSeen bool  // some operation other than Close answered ErrLockedMapClosed
 }
 
 // c32RunRound runs the programs of c on a fresh object and checks the recorded history.
@@ -1067,6 +1165,11 @@ func c32RunRound(rt *rapid.T, r *ev.Rec, c c32Case, round int) (res c32RoundResu
 		}
 	}
 
+	// ---- Close is one operation of the whole map
+	if c.HasClose {
+		c32CheckWholeMap(rt, r, desc, all, hist, &res)
+	}
+
 	// ---- length
 	if lenv != present || mapLen != present || traversed != present {
 		sig := "len-mismatch"
@@ -1104,18 +1207,217 @@ func c32RunRound(rt *rapid.T, r *ev.Rec, c c32Case, round int) (res c32RoundResu
 	return res
 }
 
+// c32CheckWholeMap checks the clauses that follow from Close being ONE operation of a linearizable map: whatever the
+// sequential order is, Close has one place in it, every operation before it finds the map open and every operation
+// after it finds the map closed, on every key and shard.
+func c32CheckWholeMap(rt *rapid.T, r *ev.Rec, desc string, all []c32Rec, hist [][]porcupine.Operation, res *c32RoundResult) {
+	recs := append([]c32Rec(nil), all...)
+	sort.Slice(recs, func(i, j int) bool { return recs[i].call < recs[j].call })
+
+	line := func(rec c32Rec) string {
+		return fmt.Sprintf("[%d..%d] client%d %v -> %v", rec.call, rec.ret, rec.client, rec.op, rec.out)
+	}
+
+	var closes []c32Rec
+
+	for _, rec := range recs {
+		if rec.op.Kind != c32Close {
+			if rec.out.Err == c32ErrClosed {
+				res.closedAnswerSeen = true
+			}
+
+			continue
+		}
+
+		closes = append(closes, rec)
+
+		for _, o := range recs {
+			if o.client != rec.client && o.call < rec.ret && rec.call < o.ret {
+				res.closeInFlight = true
+
+				break
+			}
+		}
+	}
+
+	// (1) direct: X answered what only a closed map answers (or X is Close itself), so Close is before X in the
+	// sequential order; Y started after X returned, so Y is after X, hence after Close: Y must find the map closed.
+	var first *c32Rec
+
+	for i := range recs {
+		if c32SawClosed(recs[i].op, recs[i].out) && (first == nil || recs[i].ret < first.ret) {
+			first = &recs[i]
+		}
+	}
+
+	if first != nil {
+		for _, rec := range recs {
+			if rec.call < first.ret {
+				continue
+			}
+
+			res.afterClosedSeen++
+
+			if !c32SawOpen(rec.op, rec.out) {
+				continue
+			}
+
+			var cl strings.Builder
+			for _, x := range closes {
+				fmt.Fprintf(&cl, "\n    %s", line(x))
+			}
+
+			r.Violation(rt, "close-not-atomic", "%s: Close is not one step of the whole map: an operation had already returned with the closed map observed, and an operation that started afterwards still found the map open (no place for Close in a sequential order):\n  observed closed: %s\n  later, still open: %s\n  Close:%s",
+				desc, line(*first), line(rec), cl.String())
+
+			break
+		}
+	}
+
+	// (2) exact: the whole history is linearizable with ONE Close exactly when there is a moment t inside the interval of
+	// Close (a gap between two consecutive call/return numbers) such that every key's own history is linearizable with
+	// Close narrowed to t: operations that returned before t are before Close, operations that started after t are
+	// after it, the others are free (before and after Close the keys are independent objects, so their orders compose;
+	// the other direction: take the place of Close in a sequential order of the whole map as t). For one key the answer
+	// only changes when t passes a call/return of an operation on that key, so one porcupine run per such stretch does.
+	// This also covers "not found because closed" on a key nobody removed.
+	if len(closes) != 1 {
+		return
+	}
+
+	cc, cr := closes[0].call, closes[0].ret
+	if cr <= cc {
+		return
+	}
+
+	res.wholeChecked = true
+
+	feasible := make([]bool, cr-cc) // feasible[g-cc]: Close may sit between the numbers g and g+1
+	for i := range feasible {
+		feasible[i] = true
+	}
+
+	windows := make([]string, len(hist))
+
+	for k := range hist {
+		var stamps []int64
+
+		ops := make([]porcupine.Operation, 0, len(hist[k]))
+		ci := -1
+
+		for _, o := range hist[k] {
+			if o.Input.(c32Op).Kind == c32Close {
+				ci = len(ops)
+			} else {
+				if o.Call > cc && o.Call < cr {
+					stamps = append(stamps, o.Call)
+				}
+
+				if o.Return > cc && o.Return < cr {
+					stamps = append(stamps, o.Return)
+				}
+			}
+
+			o.Call, o.Return = 4*o.Call, 4*o.Return
+			ops = append(ops, o)
+		}
+
+		if ci < 0 {
+			return
+		}
+
+		sort.Slice(stamps, func(i, j int) bool { return stamps[i] < stamps[j] })
+
+		// Traverse/Map give one read per key with the same numbers
+		uniq := stamps[:0]
+		for i := range stamps {
+			if i == 0 || stamps[i] != stamps[i-1] {
+				uniq = append(uniq, stamps[i])
+			}
+		}
+
+		bounds := append(append([]int64{cc}, uniq...), cr) // stretch i = gaps bounds[i] .. bounds[i+1]-1
+		any := false
+
+		var w []string
+
+		lastStart, lastEnd := int64(-1), int64(-1)
+
+		for i := 0; i+1 < len(bounds); i++ {
+			g := bounds[i]
+			ops[ci].Call, ops[ci].Return = 4*g+1, 4*g+2
+
+			switch porcupine.CheckOperationsTimeout(c32Model, ops, 5*time.Second) {
+			case porcupine.Illegal:
+				for j := g; j < bounds[i+1]; j++ {
+					feasible[j-cc] = false
+				}
+
+				continue
+			case porcupine.Unknown:
+				res.wholeUnknown++
+			}
+
+			any = true
+
+			if lastEnd == g && len(w) > 0 {
+				w = w[:len(w)-1]
+				g = lastStart
+			}
+
+			lastStart, lastEnd = g, bounds[i+1]
+			w = append(w, fmt.Sprintf("after %d and before %d", lastStart, lastEnd))
+		}
+
+		if !any {
+			// this key's own history has no place for Close at all: that is the per-key verdict above (or its budget)
+			return
+		}
+
+		windows[k] = strings.Join(w, ", or ")
+	}
+
+	for i := range feasible {
+		if feasible[i] {
+			return
+		}
+	}
+
+	var b strings.Builder
+
+	for k := range windows {
+		fmt.Fprintf(&b, "\n    key %d: Close has to take effect %s", k, windows[k])
+	}
+
+	b.WriteString("\n  history:")
+
+	for _, rec := range recs {
+		fmt.Fprintf(&b, "\n    %s", line(rec))
+	}
+
+	r.Violation(rt, "close-not-atomic", "%s: the history is not linearizable with respect to a sequential map with ONE Close: every key's own history is linearizable, but there is no single moment within Close [%d..%d] that suits all keys:%s",
+		desc, cc, cr, b.String())
+}
+
 func TestC32(t *testing.T) {
 	r := ev.Start(t, "C32")
 	defer r.Finish()
 	r.Rule("objects {SingleLockedMap, ShardedMap 2..64 shards, deep ShardedMap [2,3]/[4,4,4]/[2,2]/[2,2,2], each with stock shards or harness shards that add scheduling points around the shard operation " +
-		"and inside the shard factory, Locked value} with string or int keys. Two program shapes: mixed = 3..6 client goroutines run drawn programs of 5..20 operations over 4 keys: Exists, Value, SetValue, " +
+		"inside the shard factory and around the Close of one shard, Locked value} with string or int keys. Three program shapes: mixed = 3..6 client goroutines run drawn programs of 5..20 operations over 4 keys: Exists, Value, SetValue, " +
 		"RemoveValue, Get, GetOrCreate (create ok/ignore/error, callback ok/error), Set / Remove / SetOrRemove (callback ok/ignore/error), Traverse, Map, Close (at most once); " +
 		"burst = 3..8 clients whose first operation is a write (SetValue, Set, GetOrCreate, SetOrRemove: the operations that find or make the shard of a key) followed by 0..3 operations of any kind, over 4..12 keys " +
-		"on few shards (2..7, deep), the same programs run on 8..24 fresh objects so that the first writers meet shards that do not exist yet. After every run each key is read, and Len, Map and Traverse are compared. " +
-		"non-trivial: at least two operations of different clients on the same key overlapped in the recorded history, or the first writes of two clients overlapped on a fresh object; distinct by (shape, object, keys, programs)")
+		"on few shards (2..7, deep), the same programs run on 8..24 fresh objects so that the first writers meet shards that do not exist yet; " +
+		"closing = 3..8 clients run 4..12 operations each (first a write, then reads and writes of every kind) over 8..16 keys spread over the shards of a ShardedMap (2..64 shards) or a deep map " +
+		"([2,3] .. [8,8], [4,4,4]) while one more client closes the map in the middle of its own short program, repeated on 3..8 fresh objects. After every run each key is read, and Len, Map and Traverse are compared. " +
+		"Every history with a Close is also checked as ONE history of the whole map (direct happens-before clause + one common moment for Close over all keys' histories). " +
+		"non-trivial: at least two operations of different clients on the same key overlapped in the recorded history, or the first writes of two clients overlapped on a fresh object, " +
+		"or operations of other clients overlapped the Close; distinct by (shape, object, keys, programs)")
 	r.Floor(100)
 	r.Assume("Traverse and Map are not claimed to be atomic snapshots across shards: each is one read per key spanning the call",
-		"Close is checked per key (it may take effect at different moments for different keys)",
+		"Close is one operation of the whole map (the statement says the maps are linearizable): in every key's history, and once in the history of the whole map, where all keys share one closed flag; "+
+			"an answer only a closed map gives is ErrLockedMapClosed, answers only an open map gives are the ones the closed clause of the model refuses (found, added, removed, callback called by Set/GetOrCreate/SetOrRemove, a non-empty Traverse/Map)",
+		"closing a caller-supplied shard may take any time: the harness shard yields inside its Close",
+		"the history of the whole map is decided exactly by trying every moment within Close on every key's own history (keys are independent before and after Close); a porcupine run that exceeds its time budget counts as 'possible' (whole_map_porcupine_timeouts), never as a violation",
 		"on a closed map Get and Remove may either answer ErrLockedMapClosed or call the callback with (zero, not found): the two stock implementations differ",
 		"whether a value created by GetOrCreate stays when its callback returns an error is not specified: the model accepts both, but Len must agree with the keys that exist",
 		"schedules are sampled (real goroutines), except for the scheduling points of the harness-supplied shards",
@@ -1124,12 +1426,14 @@ func TestC32(t *testing.T) {
 	r.Checks(450, 30000)
 	r.ShrinkTime(12 * time.Second)
 
-	var unknown atomic.Int64
+	var unknown, wholeUnknown atomic.Int64
 
 	rapid.Check(t, func(rt *rapid.T) {
 		c := c32GenCase(rt)
 
-		var overlap, sawGOCErr, firstWrites bool
+		var overlap, sawGOCErr, firstWrites, closeInFlight, wholeChecked, closedAnswerSeen bool
+
+		var afterClosedSeen int64
 
 		var recs [][]c32Rec
 
@@ -1139,8 +1443,13 @@ func TestC32(t *testing.T) {
 			overlap = overlap || res.overlap
 			sawGOCErr = sawGOCErr || res.sawGOCErr
 			firstWrites = firstWrites || res.firstWrites
+			closeInFlight = closeInFlight || res.closeInFlight
+			wholeChecked = wholeChecked || res.wholeChecked
+			closedAnswerSeen = closedAnswerSeen || res.closedAnswerSeen
+			afterClosedSeen += res.afterClosedSeen
 
 			unknown.Add(res.unknown)
+			wholeUnknown.Add(res.wholeUnknown)
 		}
 
 		// ---- evidence
@@ -1165,15 +1474,39 @@ func TestC32(t *testing.T) {
 			classes = append(classes, "overlapping-first-writes-on-fresh-object")
 		}
 
+		if closeInFlight {
+			classes = append(classes, "close-in-flight")
+		}
+
+		if wholeChecked {
+			classes = append(classes, "whole-map-history-checked")
+		}
+
+		if closeInFlight && closedAnswerSeen {
+			classes = append(classes, "close-in-flight-and-closed-answer-seen")
+		}
+
+		if afterClosedSeen > 0 {
+			r.Class("operations-started-after-closed-map-was-observed", afterClosedSeen)
+		}
+
 		if c.Shape == "burst" {
 			r.Class("fresh-objects-in-burst-cases", int64(c.Rounds))
+		}
+
+		if c.Shape == "closing" {
+			r.Class("fresh-objects-in-closing-cases", int64(c.Rounds))
+		}
+
+		if strings.HasSuffix(c.Kind, "-hooked") && c.CloseSpin > 0 {
+			classes = append(classes, "shard-close-yields")
 		}
 
 		if strings.HasSuffix(c.Kind, "-hooked") && c.CreateSpin > 0 {
 			classes = append(classes, "shard-factory-yields")
 		}
 
-		nontrivial := overlap || firstWrites
+		nontrivial := overlap || firstWrites || closeInFlight
 		nops := 0
 
 		for ci := range recs {
@@ -1201,4 +1534,5 @@ func TestC32(t *testing.T) {
 	})
 
 	r.Extra("porcupine_timeouts", unknown.Load())
+	r.Extra("whole_map_porcupine_timeouts", wholeUnknown.Load())
 }
